@@ -290,6 +290,7 @@ impl Scenario for C05 {
         let mut stats = RunStats::default();
         stats.absorb_proc(&r);
         stats.param("n", self.n as i64);
+        stats.probe_max("max_decisions_in_one_run", r.decisions);
         stats.param("w", self.w as i64);
         let got = result.lock().unwrap().clone();
         let violation = self.judge(&r, &got, &mut stats);
